@@ -22,6 +22,11 @@ CLAIMS = {
  "C19": ("Sequence counters: in-memory provider by induction step over a symbolic state (all widths); file-backed provider over a ghost file system (open/readline/seek/write model, abstract decimal text): constructor, get_and_increment, new instance continues, FileNotFoundError iff, arbitrary text -> count or ValueError.", "DESIGN.md 5 C19"),
  "C07": ("File Data PDU: pack = oracle for every header configuration (metadata/no metadata, large/normal, CRC on/off, all widths), refusals iff, decode with arbitrary suffix exact to the octet incl. empty file data, decode of arbitrary octets (raises-only, CRC gate), setters (C11), maximum segment length helper.", "DESIGN.md 5 C07"),
  "C17": ("USLP: primary / truncated header pack = 732.1-B-2 oracle for every VCF length 0..7, refusal iff for out-of-range IDs (both bounds), unpack of arbitrary octets, round trips with suffix; TFDF and transfer frame pack order, len() == len(pack()), frame-length update, unpack with matching managed parameters for fixed / variable / truncated frames, acceptance conditions for mismatches.", "DESIGN.md 5 C17"),
+ "C04": ("Composition: every CRC-carrying pack ends in crc16 of everything before it (crc-residue / layout clauses), every decoder that returns has checked residue 0 over the declared packet (crc-gate clauses, arbitrary octets), CRC-16 lemma library proved with bit-vectors per run (residue iff, GF(2)-linearity, zero-byte injectivity, all <=16-bit bursts over 3 octets) giving burst detection by induction over the common suffix; check_pus_crc == residue 0. crcmod vs reference CRC is a bounded native stand-in. Known finding: the CFDP CRC flag bit itself.", "DESIGN.md 5 C04"),
+ "C06": ("The seven file directives: pack = 727.0-B-5 oracles for every header configuration, lengths, decode of pack+suffix, equality, accessors, repack, decode of arbitrary octets (raises-only, CRC gate), refusals, setters. NAK segment-request lists of ANY length by loop contracts + ghost recursion + induction lemmas (pack, unpack of arbitrary octets, round trip); Finished / Metadata TLV lists bounded (<= 2 items, labelled).", "DESIGN.md 5 C06 + 0a"),
+ "C09": ("Clause set over the per-class contracts: every decoder post-condition is stated over pack(x) + arbitrary suffix / arbitrary octets with prefix-only clauses (result identical to decoding the first N octets, N = reported length), back-to-back split lemmas; CFDP PDUs: identical result or documented refusal.", "DESIGN.md 5 C09"),
+ "C10": ("Clause set: raises-only clauses (documented classes only) of every public decoder on ARBITRARY octet strings, strict-prefix refusal for self-delimiting units, decoder loops with variants (NAK, parser) or bounded lists (labelled).", "DESIGN.md 5 C10"),
+ "C11": ("Clause set: after each documented setter (objects first used: packed / hashed, so caches are exercised) reported length, length field and octets equal those of a freshly built object; pack twice identical; caller-supplied config / params objects unchanged (snapshot + same_state).", "DESIGN.md 5 C11"),
 }
 NOT_APPLICABLE = {}
 props = [json.loads(l)["id"] for l in open(os.path.join(V, "properties.jsonl"))]
